@@ -149,5 +149,32 @@ def extra(tier, seed, stats):
             out.append({"case": c, "detail": dict(r["detail"], sweep_item=list(it)), "kind": r.get("kind")})
         elif r.get("nontrivial"):
             stats.nontrivial.add("sweep:%d:%d:%d" % it)
+    # name shapes, enumerated (all within the character set the property names): digits only, prefix relations, format
+    # words, leading / trailing / only punctuation, case-only differences, database-style identifiers
+    from vlib import gen as _gen
+    groups = [["1", "2", "3", "10"], ["007", "0", "00", "7"], ["seq", "seq1", "seq10", "seq100"], ["seq100", "seq10", "seq1", "seq"],
+              ["abc", "ABC", "Abc", "aBC"], ["-a", "a-", "_", "x.y.z"], ["|x|", "a|b|c", "sp|P12345|NAME_HUMAN", "tr|Q9|X_Y"],
+              ["1e5", "0x1F", "-1", "1.5"], ["a.1", "a.2", "a_1", "a-1"], ["123456789012345678901234567890", "12345678901234567890123456789", "9", "99"]]
+    words = list(_gen.FORMAT_WORDS)
+    for i in range(0, len(words), 4):
+        g = words[i:i + 4]
+        while len(g) < 4:
+            g.append("w%d" % len(g))
+        groups.append(["%s_%d" % (w, k) for k, w in enumerate(g)])
+        groups.append(list(g) if len(set(g)) == 4 else ["%s.%d" % (w, k) for k, w in enumerate(g)])
+    rows4 = ["ACGTACGT-ACGTTGCA" * 4, "ACGTAC-TTACGTTGCA" * 4, "AC-TACGTTACGTTGCA" * 4, "ACGTACGTTACG-TGCA" * 4]
+    ncases = []
+    for g in groups:
+        for chain in (["fasta"], ["msf"], ["clu"], ["msf", "clu", "fasta"]):
+            ncases.append({"src": {"names": list(g), "rows": rows4, "source": "synthetic"}, "chain": chain})
+    with ThreadPoolExecutor(max_workers=12) as ex:
+        nres = list(ex.map(check, ncases))
+    for c, r in zip(ncases, nres):
+        stats.evaluations += 1
+        stats.classes["name_shapes_enumerated"] += 1
+        if r["status"] == "violation":
+            out.append({"case": c, "detail": r["detail"], "kind": r.get("kind")})
+        elif r["status"] == "ok":
+            stats.nontrivial.add("names:%s:%s" % (c["src"]["names"][1], "+".join(c["chain"])))
     stats.extra["sweep"] = "every row count %s (width 2), every width 1..260 (3 rows), every name length 1..200 (exhaustive over those ranges)" % ("2..400, 500..524, 1000..1039" if tier == "quick" else "2..2200")
     return out
